@@ -161,6 +161,17 @@ class Check:
             if viol and viol[-1]['component'] in ('ekf_f', 'roleq_prop'):
                 break
         stats['steps'] += 2 * min(n, 60)
+        # 1d. the same steps from the identity written as people write it: a list / array of integers
+        for qi in ([1, 0, 0, 0], np.array([1, 0, 0, 0]), [0, 0, 1, 0]):
+            ref_i = first_order(np.array(qi, dtype=float), w, dt_eff)
+            for comp, fn in (('ekf_f', lambda q_: ekf.f(q_, w.copy(), dt_eff)), ('roleq_prop', lambda q_: roleq.attitude_propagation(q_, w.copy(), dt_eff))):
+                try:
+                    val = qm.qnorm(np.asarray(fn(qi), dtype=float))
+                    d = float(np.abs(val - ref_i).max())
+                    if not d <= 1e-12:
+                        viol.append(self._v(comp, 'prediction-step', 0, f'from the integer-typed prior {qi!r} the prediction differs from the first-order step by {d:.3g}', trigger='integer-prior'))
+                except Exception as e:      # noqa: BLE001
+                    viol.append(self._v(comp, f'crash:{type(e).__name__}', 0, f'integer-typed prior {qi!r}: {type(e).__name__}: {e}', trigger='integer-prior'))
         # 1b. closed form, batch constructor (needs the period at construction)
         if route != 'call':
             gyr = np.tile(w, (n + 1, 1))
@@ -175,6 +186,21 @@ class Check:
                 log.add('batch', Q)
             except Exception as e:      # noqa: BLE001
                 viol.append(self._v('angular_closed', f'crash:{type(e).__name__}', 0, f'batch constructor raised {type(e).__name__}: {e}'))
+        # 1e. series method through the batch constructor: order k must be honoured there too
+        if route != 'call':
+            gyr = np.tile(w, (min(n, 40) + 1, 1))
+            for order in (0, 2, 3, 5):
+                try:
+                    Qb = np.asarray(ahrs.filters.AngularRate(gyr, q0=q0u.copy(), method='series', order=order, **kw).Q)
+                    qs = q0u.copy()
+                    for k in range(1, len(gyr)):
+                        qs = np.asarray(ar.update(qs, w, method='series', order=order), dtype=float)
+                        d = float(np.abs(Qb[k] - qs).max())
+                        if not d <= 1e-12:
+                            viol.append(self._v('angular_series', 'batch-order', k, f'order {order}: batch row {k} differs from the streamed series step by {d:.3g}', trigger=f'order{order}'))
+                            break
+                except Exception as e:      # noqa: BLE001
+                    viol.append(self._v('angular_series', f'crash:{type(e).__name__}', 0, f'batch series order {order}: {type(e).__name__}: {e}'))
         call = {'dt': dt} if route == 'call' else {}
         # 2. series orders along the closed-form trajectory
         ticks = sorted(set([0, 1, n // 2, n - 1]))
@@ -217,6 +243,7 @@ class Check:
             ('mahony_marg', {'k_P': g['kP'], 'k_I': g['kI'], 'b0': list(b0)}),
             ('aqua_imu', {'alpha': g['alpha'], 'beta': g['alpha']}),
             ('aqua_marg', {'alpha': g['alpha'], 'beta': g['alpha']}),
+            ('roleq', {'frame': 'NED'}),        # a null sample makes ROLEQ.update return its propagation step alone
         ]
         chans = [C.KINDS[k].refs(p, dip) for k, p in nodes]
         hist = W.build(world, chans)
